@@ -3,7 +3,9 @@ import MesaModel.Model.Computed
 /-!
 Line-protocol driver for the signals group (C16, C17, C18-signals).  One output line per input line.
 
-  scenario sig  name:kind:t1,t2,… …      C16 machine; kind ∈ obs|lst; the types in the set's iteration order
+  scenario sig  name:kind:t1,t2,… … [prog:h:ACT,ACT…]…   C16 machine; kind ∈ obs|lst; the types in the set's iteration order;
+      prog = the registry calls handler h makes whenever it is called: ACT = o.N.T.g (observe) | u.N.T.g (unobserve) | c.N
+      (clear_all_subscriptions), N: name or *, T: type or *; only calls that are accepted are admitted
       observe N T h | unobserve N T h | clear N | drop h         (N: name or *, T: type or *)
       set n v | lassign n vs | lset n i v | lsetslice n a b vs | ldel n i | ldelslice n a b
       linsert n i v | lappend n v | lpop n i | lremove n v | lextend n vs | liadd n vs | lreverse n | lclear n
@@ -90,6 +92,19 @@ def parseSigOp (s : St) : List String → Option Op
       | "lreverse", [] => pure (.lreverse n)
       | "lclear", [] => pure (.lclear n)
       | _, _ => none
+  | _ => none
+
+def parseAct (s : String) : Option Act :=
+  match s.splitOn "." with
+  | ["o", n, t, g] => do pure (.observe (← parseSelN n) (← parseSelT t) (← g.toNat?))
+  | ["u", n, t, g] => do pure (.unobserve (← parseSelN n) (← parseSelT t) (← g.toNat?))
+  | ["c", n] => do pure (.clear (← parseSelN n))
+  | _ => none
+
+/-- `prog:h:ACT,ACT…` -/
+def parseSigProg (s : String) : Option (Nat × List Act) :=
+  match s.splitOn ":" with
+  | ["prog", h, acts] => do pure (← h.toNat?, ← (acts.splitOn ",").mapM parseAct)
   | _ => none
 
 def fmtSubs (s : St) : String :=
@@ -223,17 +238,22 @@ end
 
 inductive Mach where
   | none
-  | sig (s : St)
+  | sig (s : St) (progs : List (Nat × List Act))
   | comp (c : CSt)
+
+def progOf (progs : List (Nat × List Act)) (h : Nat) : List Act := (progs.lookup h).getD []
 
 def stepLine (m : Mach) (ws : List String) : Mach × String :=
   match ws with
   | "scenario" :: "sig" :: ds =>
     -- `|` (class boundary) and `natural` (real sets on the Python side) only concern the implementation runner
-    match (ds.filter fun t => t ≠ "|" ∧ t ≠ "natural").mapM parseDecl with
-    | some decls =>
-      if (decls.map (·.name)).eraseDups.length = decls.length then (.sig (init decls), "ok") else (m, "bad-op")
-    | none => (m, "bad-op")
+    match ((ds.filter fun t => t ≠ "|" ∧ t ≠ "natural" ∧ !t.startsWith "prog:").mapM parseDecl),
+          ((ds.filter fun t => t.startsWith "prog:").mapM parseSigProg) with
+    | some decls, some progs =>
+      if (decls.map (·.name)).eraseDups.length = decls.length ∧ (progs.map (·.1)).eraseDups.length = progs.length ∧
+          progs.all (fun p => p.2.all (Act.valid (init decls).reg)) then (.sig (init decls) progs, "ok")
+      else (m, "bad-op")
+    | _, _ => (m, "bad-op")
   | ["scenario", "comp", ds, ps] =>
     match (ds.splitOn ",").mapM parseCDecl, (if ps = "-" then some [] else (ps.splitOn ",").mapM parseProg) with
     | some decls, some progs =>
@@ -245,7 +265,7 @@ def stepLine (m : Mach) (ws : List String) : Mach × String :=
     match m with
     | .none => (m, "bad-op")
     | .comp c => let (c', o) := stepC c ws; (.comp c', o)
-    | .sig s =>
+    | .sig s progs =>
       match ws with
       | ["subs"] => (m, fmtSubs s)
       | ["get", n] =>
@@ -259,7 +279,7 @@ def stepLine (m : Mach) (ws : List String) : Mach × String :=
       | _ =>
         match parseSigOp s ws with
         | none => (m, "bad-op")
-        | some op => let (s', o) := step s op; (.sig s', fmtOut o)
+        | some op => let (s', o) := stepR (progOf progs) s op; (.sig s' progs, fmtOut o)
 
 partial def loop (h : IO.FS.Stream) (out : IO.FS.Stream) (m : Mach) : IO Unit := do
   let line ← h.getLine
